@@ -555,6 +555,9 @@ func (b *Built) outcome(o *Obj, key string, t TRef) (reflect.Value, error) {
 	case "wrapsafe":
 		// an ordinary error that wraps a safe one: not itself safe for clients
 		return reflect.Value{}, fmt.Errorf("lookup of %s failed: %w", oc.Msg, graphql.NewSafeError("safe part of %s", oc.Msg))
+	case "cancelwrap":
+		// a downstream call was cancelled or timed out; the request itself is alive
+		return reflect.Value{}, fmt.Errorf("downstream call of %s failed: %w", oc.Msg, cancelCause(oc.Msg))
 	case "custom":
 		// a user-defined SanitizedError whose public text differs from its Error() text
 		return reflect.Value{}, CustomErr{Detail: "detail of " + oc.Msg, Public: "public " + oc.Msg}
@@ -633,10 +636,24 @@ func FailText(kind, msg string) string {
 	if kind == "wrapsafe" {
 		return fmt.Sprintf("lookup of %s failed: safe part of %s", msg, msg)
 	}
+	if kind == "cancelwrap" {
+		return fmt.Sprintf("downstream call of %s failed: %s", msg, cancelCause(msg).Error())
+	}
 	if kind == "custom" {
 		return "public " + msg // what SanitizedError() returns; Error() says "detail of ..."
 	}
 	return msg
+}
+
+func cancelCause(msg string) error {
+	h := 0
+	for _, c := range msg {
+		h = h*31 + int(c)
+	}
+	if (h/7)%3 != 0 { // two in three are context.Canceled
+		return context.Canceled
+	}
+	return context.DeadlineExceeded
 }
 
 // CustomErr is a user-defined error type that is safe for clients, with a public text that differs
